@@ -21,6 +21,7 @@ DEFAULTS = {
     'fb_context': 'HTTPForbidden', 'fb_exception_only': True,
     'exc_default_context': 'Exception', 'exc_exception_only': True,
     'default_view_returns_context': True,
+    'permissive_checks_predicates': False,
 }
 
 
@@ -248,9 +249,53 @@ def _add_view(src, v, problems):
         problems.append('add_view: the exception-context statements changed their order')
 
 
+CALL_VIEW_MASKED = '3874a0fb528f00a3'
+PERMISSIVE_OLD = """
+if not secure:
+    view_callable = getattr(view_callable, '__call_permissive__', view_callable)
+"""
+PERMISSIVE_NEW = """
+if not secure:
+    permissive = getattr(view_callable, '__call_permissive__', None)
+    if permissive is not None:
+        predicated = getattr(view_callable, '__predicated__', None)
+        if predicated is not None and not predicated(context, request):
+            raise PredicateMismatch(view_name)
+        view_callable = permissive
+"""
+
+
+def _permissive(src, v, problems):
+    """_call_view: what secure=False does (finding C14-permissive-skips-predicates and its repair)"""
+    m = F.Module(src, 'pyramid/view.py')
+    fn = m.find('_call_view')
+    blocks = [n for n in (ast.walk(fn) if fn else []) if isinstance(n, ast.If) and isinstance(n.test, ast.UnaryOp)
+              and isinstance(n.test.op, ast.Not) and _name(n.test.operand) == 'secure']
+    if len(blocks) != 1:
+        problems.append('_call_view: "if not secure:" block unrecognised')
+        return
+    # the rest of _call_view: shape pin with the secure=False block masked
+    import hashlib
+    cp = F.strip_doc(fn)
+    for n in ast.walk(cp):
+        if isinstance(n, ast.If) and isinstance(n.test, ast.UnaryOp) and isinstance(n.test.op, ast.Not) \
+                and _name(n.test.operand) == 'secure':
+            n.body = [ast.Pass()]
+    if hashlib.sha1(ast.dump(cp).encode()).hexdigest()[:16] != CALL_VIEW_MASKED:
+        problems.append('shape pin pyramid/view.py:_call_view (secure=False block masked) changed: the hand-written '
+                        'model follows the previous text of this function')
+    got = ast.dump(F.strip_doc(blocks[0]).body[0])
+    if got == ast.dump(ast.parse(PERMISSIVE_OLD).body[0]):
+        v['permissive_checks_predicates'] = False
+    elif got == ast.dump(ast.parse(PERMISSIVE_NEW).body[0]):
+        v['permissive_checks_predicates'] = True
+    else:
+        problems.append('_call_view: the body of "if not secure:" is neither the known text nor its repair')
+
+
 def extract(src, problems):
     v = dict(DEFAULTS)
-    for f in (_iev, _tweens, _config, _add_view):
+    for f in (_iev, _tweens, _config, _add_view, _permissive):
         try:
             f(src, v, problems)
         except Exception as e:          # fail closed
@@ -266,6 +311,7 @@ def emit(v):
               'tween_catches', 'nf_context', 'fb_context', 'exc_default_context'):
         out.append('Definition %s : text := %s.\n' % (k, F.coq_text(v[k])))
     for k in ('uses_combined', 'lookup_uses_provided_by', 'handler_reraises_original', 'nf_exception_only',
-              'fb_exception_only', 'exc_exception_only', 'default_view_returns_context'):
+              'fb_exception_only', 'exc_exception_only', 'default_view_returns_context',
+              'permissive_checks_predicates'):
         out.append('Definition %s : bool := %s.\n' % (k, F.coq_bool(v[k])))
     return ''.join(out)
